@@ -55,6 +55,10 @@ def get_dataflow(U, rep):
   ngeom = len(bodyid)
   sysd = Struct('System', {'geom_bodyid': bodyid, 'geom_pos': symarr('gp', (ngeom, 3)), 'geom_quat': symarr('gq', (ngeom, 4)),
                            'elasticity': symarr('el', (ngeom,))}, home='brax.base')
+  # the host-side MuJoCo model the system was loaded from: a (possibly stale) copy of the geom fields --
+  # a System's own fields are the live ones (sys.replace / domain randomisation change them)
+  sysd.f['mj_model'] = Struct('MjModel', {'geom_bodyid': bodyid, 'geom_pos': symarr('stale_gp', (ngeom, 3)),
+                                          'geom_quat': symarr('stale_gq', (ngeom, 4)), 'ngeom': ngeom})
   x = T('x', (nlink,))
   geom1, geom2 = np.array([0, 1, 3]), np.array([2, 3, 1])
   seen = {}
@@ -87,7 +91,8 @@ def get_dataflow(U, rep):
     mat = I.apply(fn(MA, 'quat_to_3x3'), [w.f['rot']], {})
     ok_pose = ok_pose and same(seen['xpos'][g], w.f['pos']) and same(seen['xmat'][g], mat)
   rep.check(ok_pose, 'R10.2', 'geom world poses handed to mjx.collision',
-            'a geom\'s world pose is not its owning link\'s pose (world = identity) composed with the geom offset',
+            'a geom\'s world pose is not its owning link\'s pose (world = identity) composed with the system\'s own '
+            '(live) geom offset sys.geom_pos / sys.geom_quat',
             where=f.where(), construct='x_ext = x ++ identity; pose[g] = x_ext[geom_bodyid[g]-1] o (geom_pos[g], geom_quat[g])')
   li = c.f.get('link_idx') if isinstance(c, Struct) else None
   ok_li = isinstance(li, tuple) and len(li) == 2 and list(avn.toint(asarr(li[0]))) == list(bodyid[geom1] - 1) and \
@@ -140,7 +145,8 @@ def get_dataflow(U, rep):
             'the size table no longer maps geom-typed customs to mj.ngeom', where=fc.where())
 
 
-def no_alias(U, rep, tier):
+def no_alias(U, rep, tier, rule='R10.4', key='%s: world contact (-1) does not alias the last link',
+             message='a contact with the world reads or moves an uninvolved link (index -1 wraps to the last link)'):
   """R10.4: a world contact must not touch the last link."""
   seeds = range(2 if tier == 'quick' else 6)
   cases = [('spring.collisions.resolve', 'brax.spring.collisions', 'resolve'),
@@ -189,8 +195,8 @@ def no_alias(U, rep, tier):
           break
       finally:
         avn.exact_mode()
-    rep.check(bad is None, 'R10.4', '%s: world contact (-1) does not alias the last link' % name,
-              'a contact with the world reads or moves an uninvolved link (index -1 wraps to the last link)' + (
+    rep.check(bad is None, rule, key % name,
+              message + (
                   '' if bad is None else ' (random-interpretation trial seed %d)' % bad), where=f.where(),
               construct='result for link 0 independent of link 1; link 1 untouched')
 
